@@ -478,6 +478,18 @@ static void gen_pair(Out& out, Rng& g, bool with_lh) {
         else A.push_back(to_double(random_shape(g, span), (double)S, sub));
         if (g.chance(30) && !pool.empty()) B.push_back(pool[g.below(pool.size())]);
     }
+    // a polygon that collapses on the rounding grid (both long edges round to the same grid line): Clipper rejects such a path;
+    // the polygons that FOLLOW it in the same group must still take part in the operation
+    if (S != 1000 && !lopsided && g.chance(8)) {
+        double x0 = (double)g.range(-4, 12), y0 = (double)g.range(-4, 12), w = (double)g.range(3, 30);
+        DPoly sl = {Vec2{x0 / S, (y0 + 0.125) / S}, Vec2{(x0 + w) / S, (y0 + 0.125) / S}, Vec2{(x0 + w) / S, (y0 + 0.375) / S}, Vec2{x0 / S, (y0 + 0.375) / S}};
+        if (g.coin()) std::swap(sl[1], sl[3]);
+        DGroup& G = (g.coin() && !B.empty()) || A.empty() ? B : A;
+        if (!G.empty()) {
+            G.insert(G.begin() + (long)g.below(G.size()), sl);   // anywhere but last
+            scen += "+collapsing-sliver";
+        }
+    }
     run_bool(out, g, A, B, S, scen + (sub ? "+offgrid" : ""), with_lh);
 }
 
